@@ -45,6 +45,6 @@ def include_number_surface(ck, facts, tier):
     ck._surface_done = True
     with ck.restrict({"R18.3"}):
         _quiet(ck, lambda: c18.run(ck, facts, tier))
-    with ck.restrict({"R19.4"}):
+    with ck.restrict({"R19.4", "R19.2"}):          # sums; abs (its branches negate value, gradient and Hessian together)
         _quiet(ck, lambda: c19.run(ck, facts, tier))
     _quiet(ck, lambda: pywrap.run(ck, facts, tier))
